@@ -121,20 +121,6 @@ Definition table_eqb (a b : list (string * list (string * (string * option ty)))
 Definition impl_ok (c : rcase) : bool :=
   negb (rc_raised c) && annos_denote (rc_fds c) (rc_imports_ok c) (rc_annos c).
 
-Definition model_ok (c : rcase) : bool :=
-  String.eqb (render_module (rc_ct c) (rc_own c) (rc_fds c)) (rc_text c)
-  && table_eqb (model_annos c) (rc_annos c)
-  && Bool.eqb (model_imports_ok c) (rc_imports_ok c).
-
-(* 0 ok; 1 model <> implementation, property holds on the implementation's output;
-   2 the stub the implementation produced is not self-contained / does not denote the traced types;
-   3 malformed case *)
-Definition verdict (c : rcase) : nat :=
-  if negb (wf_case c) then 3
-  else if negb (impl_ok c) then 2
-  else if negb (model_ok c) then 1
-  else 0.
-
 (* ---- finding classes: exact boolean predicates on the INPUT of a case ---- *)
 Section Classes.
 Variable ct : ctable.
@@ -218,6 +204,38 @@ Definition kf_fwd_not_descended : bool :=
 Definition kf_prefix_overlap : bool :=
   negb (String.eqb (render_module_old ct own fds) (render_module ct own fds)).
 End Classes.
+
+
+(* strip_is_tokenwise, the premise of render_resolves_partial, evaluated per case: outside the classes whose
+   rendering is not meant to parse back (TypedDict / forward reference printed by repr(), names containing the
+   substituted texts) every stripped annotation text parses to the token-level rendering of its type *)
+Definition tokenwise_all (c : rcase) : bool :=
+  let ct := rc_ct c in
+  forallb (fun f : fstub =>
+             forallb (fun p : param => let '(_, a, d) := p in
+                        match a with Some t => tokenwise ct (fs_mods f) (shown_anno t d) | None => true end)
+                     (fs_params f)
+             && match fs_ret f with Some t => tokenwise ct (fs_mods f) t | None => true end)
+          (map (build_fstub ct) (rc_fds c)).
+
+Definition text_class (c : rcase) : bool :=
+  kf_td_not_descended (rc_fds c) || kf_nonetype_in_name (rc_ct c) (rc_fds c)
+  || kf_typing_in_name (rc_ct c) (rc_fds c) || kf_fwd_not_descended (rc_ct c) (rc_fds c).
+
+Definition model_ok (c : rcase) : bool :=
+  String.eqb (render_module (rc_ct c) (rc_own c) (rc_fds c)) (rc_text c)
+  && table_eqb (model_annos c) (rc_annos c)
+  && Bool.eqb (model_imports_ok c) (rc_imports_ok c)
+  && (text_class c || tokenwise_all c).
+
+(* 0 ok; 1 model <> implementation (or the tokenwise premise fails), property holds on the implementation's output;
+   2 the stub the implementation produced is not self-contained / does not denote the traced types;
+   3 malformed case *)
+Definition verdict (c : rcase) : nat :=
+  if negb (wf_case c) then 3
+  else if negb (impl_ok c) then 2
+  else if negb (model_ok c) then 1
+  else 0.
 
 (* classification of a failing case: bit 0 same_root_name, 1 td_not_descended, 2 nonetype_in_name,
    3 typing_in_name, 4 hint_collision, 5 td_field_names, 6 fwd_not_descended,
